@@ -465,7 +465,7 @@ impl Hist {
         if self.eff_raw {
             "entry-raw"
         } else if !self.start_wf {
-            "load-no-uniqueness"
+            "load-case-clash"
         } else {
             ""
         }
@@ -635,7 +635,7 @@ pub fn start_font(start: &str, tmp: &Path) -> Option<(Font, HashSet<String>)> {
 }
 
 /// (text, well-formed?)
-pub const STARTS: [(&str, bool); 10] = [
+pub const STARTS: [(&str, bool); 11] = [
     ("N", true),
     ("6:glyphs:0=a.glif,1=A_.glif,;3:glyphs.b:0=a.glif,;", true),
     ("0:glyphs.a:1=x.glif,2=X_.glif,;5:glyphs:3=b.glif,;1:glyphs.A_:;", true),
@@ -646,6 +646,7 @@ pub const STARTS: [(&str, bool); 10] = [
     ("5:glyphs:;0:glyphs:;", false),
     ("5:glyphs:;0:glyphs.a:;1:glyphs.A:;", false),
     ("5:glyphs:0=x.glif,1=X.glif,;", false),
+    ("5:glyphs:;3:glyphs.A_:;4:glyphs.a_:;", false),
 ];
 
 fn new_hist(start: &str, wf: bool, tmp: &Path) -> Option<Hist> {
@@ -850,7 +851,7 @@ pub fn main(a: &Args) {
         TrieSpec { id: "Lw", start: 0, alphabet: layer_alphabet_wide(), depth: 3, split: 1 },
     ];
     for s in 0..STARTS.len() {
-        let ids = ["M0", "M1", "M2", "M3", "M4", "M5", "M6", "M7", "M8", "M9"];
+        let ids = ["M0", "M1", "M2", "M3", "M4", "M5", "M6", "M7", "M8", "M9", "M10"];
         specs.push(TrieSpec { id: ids[s], start: s, alphabet: mixed_alphabet(), depth: if s < 4 { 2 } else { 1 }, split: if s < 4 { 1 } else { 0 } });
     }
     if light {
@@ -861,6 +862,11 @@ pub fn main(a: &Args) {
         }
     }
     let mut nodes = 0u64;
+    // which start trees load at all (the model must agree)
+    let starts: Vec<serde_json::Value> = STARTS
+        .iter()
+        .map(|(t, wf)| serde_json::json!({"start": t, "well_formed": wf, "loads": start_font(t, &tmp).is_some()}))
+        .collect();
     let tries: Vec<serde_json::Value> = specs
         .iter()
         .map(|s| serde_json::json!({"id": s.id, "start": STARTS[s.start].0, "well_formed_start": STARTS[s.start].1,
@@ -994,7 +1000,7 @@ pub fn main(a: &Args) {
     );
     write_file(&a.out.join("oracle.jsonl"), &sink.oracle);
     let summary = serde_json::json!({
-        "shards": shards, "tries": tries, "trie_nodes": nodes, "random_histories": nrand, "random_steps": hist_steps,
+        "shards": shards, "tries": tries, "starts": starts, "trie_nodes": nodes, "random_histories": nrand, "random_steps": hist_steps,
         "operations_applied": sink.steps, "save_load_round_trips": sink.saveloads, "outcomes": sink.outs,
         "oracle_failures": sink.failures, "oracle_failures_not_written": sink.known_hits,
         "names": NAMES.iter().map(|n| n.to_string()).collect::<Vec<_>>(),
